@@ -114,8 +114,9 @@ class ADWIN(StreamingDetector):
             raise ValueError("ADWIN should only be used to monitor 1 variable.")
         super().update(X, None, None)
 
-        # the array should have a single element after validation.
-        X = X[0][0]
+        # the array should have a single element after validation; as a float, so that
+        # the running totals do not inherit (and overflow) a narrow integer dtype
+        X = float(X[0][0])
 
         # add new sample to the head of the window
         self._window_size += 1
